@@ -44,6 +44,7 @@ Next ==
        [] Ev.ev = "srcend" -> srcState' = 1 /\ Un(<<size, maxwait, taken, tt, ndel, cancelled, pend, closed, held, srcClosed>>)
        [] Ev.ev = "srcerr" -> srcState' = 2 /\ Un(<<size, maxwait, taken, tt, ndel, cancelled, pend, closed, held, srcClosed>>)
        [] Ev.ev = "srcclose" -> srcClosed' = srcClosed + 1 /\ Un(<<size, maxwait, taken, tt, ndel, srcState, cancelled, pend, closed, held>>)
+       [] Ev.ev = "srcviol" -> FALSE        \* the instrumented source saw Next after Close / a second Close / overlapping calls (C09)
        [] Ev.ev = "cancel" -> cancelled' = cancelled \cup {Ev.ctx} /\ Un(<<size, maxwait, taken, tt, ndel, srcState, pend, closed, held, srcClosed>>)
        [] Ev.ev \in {"adv", "item", "leak"} -> Un(<<size, maxwait, taken, tt, ndel, srcState, cancelled, pend, closed, held, srcClosed>>)
        [] Ev.ev = "hold" -> held' = TRUE /\ Un(<<size, maxwait, taken, tt, ndel, srcState, cancelled, pend, closed, srcClosed>>)
